@@ -137,7 +137,7 @@ pub fn vtree_case(u: &mut Unstructured, max_k: u8) -> Result<VtreeCase> {
     Ok(VtreeCase {
         k: 1 + u.arbitrary::<u8>()? % max_k,
         keys: vec_u16(u, 12)?,
-        kind: u.arbitrary::<u8>()? % 4,
+        kind: u.arbitrary::<u8>()? % 5,
         splits: vec_u16(u, 12)?,
         stride: 1,
         offset: 0,
@@ -145,7 +145,7 @@ pub fn vtree_case(u: &mut Unstructured, max_k: u8) -> Result<VtreeCase> {
 }
 
 pub fn sop(u: &mut Unstructured, ite_family: bool) -> Result<SOp> {
-    Ok(match u.arbitrary::<u8>()? % if ite_family { 17 } else { 10 } {
+    Ok(match u.arbitrary::<u8>()? % if ite_family { 19 } else { 10 } {
         0 | 1 => SOp::Lit(u.arbitrary()?, u.arbitrary()?),
         2 => SOp::Const(u.arbitrary()?),
         3 => SOp::Not(u.arbitrary()?),
@@ -159,6 +159,8 @@ pub fn sop(u: &mut Unstructured, ite_family: bool) -> Result<SOp> {
         13 => SOp::Compose(u.arbitrary()?, u.arbitrary()?, u.arbitrary()?),
         14 => SOp::AndDisjoint(u.arbitrary()?, u.arbitrary()?),
         16 => SOp::Dense(u.arbitrary()?),
+        17 => SOp::AndDisjointNeg(u.arbitrary()?, u.arbitrary()?, u.arbitrary()?, u.arbitrary()?),
+        18 => SOp::OrDisjointNeg(u.arbitrary()?, u.arbitrary()?, u.arbitrary()?, u.arbitrary()?),
         _ => SOp::OrDisjoint(u.arbitrary()?, u.arbitrary()?),
     })
 }
